@@ -55,11 +55,11 @@ class Finding:
 # evaluation, abstract interpretation, registry / catalogue set comparison, ownership analysis ...).  Every other rule
 # recognises a construct by its shape; a mismatch there is only evidence that the construct was rewritten.
 SEMANTIC_RULES = {
-    "C01": {"R1", "R3", "R4"},
-    "C02": {"R1", "R2", "R3", "R5", "R7", "R8"},
+    "C01": {"R1", "R3", "R4", "E2E"},
+    "C02": {"R1", "R2", "R3", "R5", "R7", "R8", "R9"},
     "C03": {"R1", "R4", "R5", "R6", "R7", "R6v", "R8v"},
-    "C04": {"R1", "R2", "R3", "R4", "R9", "R10"},
-    "C05": {"R1", "R2", "R3", "R6", "R8", "R9"},
+    "C04": {"R1", "R2", "R3", "R4", "R9", "R10", "R11"},
+    "C05": {"R1", "R2", "R3", "R6", "R8", "R9", "R10"},
     "C06": {"R1", "R2", "R3", "R4", "R5", "R6v", "R8", "R8v"},
     "C07": {"R1s", "R1v", "R2", "R4", "R5v"},
     "C08": {"G2", "G6r", "G6v", "G8", "G8v", "G9"},
@@ -71,7 +71,7 @@ SEMANTIC_RULES = {
     "C16": {"CLONEv", "R4v", "R6", "R7", "R8"},
     "C17": {"R1", "R2", "R5", "R6", "R6w"},
     "C18": {"R1", "R2", "R3", "R4", "R5", "R3v"},
-    "C19": {"R1", "R2", "R3", "R3b", "R4", "R8", "R9", "R10", "R11", "A12"},
+    "C19": {"R1", "R2", "R3", "R3b", "R4", "R8", "R9", "R10", "R11", "A12", "R12"},
 }
 
 
